@@ -1433,6 +1433,15 @@ class Stage:
         ret.variables = deepcopy(self.variables)
 
         ret._offsets = deepcopy(self._offsets)
+        # B-spline signals (and the derivatives requested of them) are the clone's own
+        ret._signals = HashOrderedDict()
+        twins = {}
+        for sym, sig in self._signals.items():
+            twins[id(sig)] = AbstractSignal(sig.order)
+            AbstractSignal.register(ret._signals, sym, twins[id(sig)])
+        for sig in self._signals.values():
+            if sig.derivative is not None:
+                twins[id(sig)].derivative = twins[id(sig.derivative)]
         ret._param_vals = copy(self._param_vals)
         ret._state_der = HashDict([(k, renew(v)) for k, v in self._state_der.items()])
         ret._scale_der = copy(self._scale_der)
